@@ -19,6 +19,7 @@ package qrAlgorithm
 /* -------------------------------------------------------------------------- */
 
 //import   "fmt"
+import "github.com/pbenner/autodiff/verifhook"
 import   "math"
 
 import . "github.com/pbenner/autodiff"
@@ -136,6 +137,7 @@ func qrAlgorithmSymmetric(inSitu *InSitu, epsilon float64) (Matrix, Matrix, erro
   }
 
   for p, q := 0, 0; q < n; {
+    verifhook.Tick("qr.symmetric")
 
     for i := 0; i < n-1; i++ {
       t11 := T.At(i  ,i  ).GetFloat64()
